@@ -1018,9 +1018,6 @@ theorem checkChunks_skip (P : Params) (hs : P.skipValidation = true) (prev acc :
     simp only [checkChunks, hs, Bool.not_true, Bool.false_and, Bool.false_eq_true, if_false, if_true]
     rw [ih]; simp
 
-/-- the framing-only decoder (no key: signatures ignored, checksum trailer still validated) -/
-def framingOnly (P : Params) : Params := { P with skipValidation := true, trailerSigned := false }
-
 /-- **A framing-only decoder recovers the payload of every conforming upload**, signed or not —
 this is what the configuration without credentials needs (and lacks in the unchanged tree). -/
 theorem framingOnly_decode_encode (P : Params) (ok : EncodeOK P) (payload : Bytes)
